@@ -44,6 +44,11 @@ Section Plan.
     else if (kt =? "timedelta_i32") || (kt =? "timedelta_i64") then VDur 0
     else if kt =? "datetime_i64" then VTime 0 else VNull.
 
+  (* kio: get_implicit_default raises NotImplementedError for Records ("Tagged record fields are
+     not supported"): no implicit default, hence no codec, for a tagged records field without default *)
+  Definition implicit_opt (kt : string) : option value :=
+    if kt =? "records" then None else Some (implicit_of kt).
+
   Fixpoint class_default (fuel : nat) (name : string) : option value :=
     match fuel with
     | O => None
@@ -59,7 +64,7 @@ Section Plan.
                          | Some (GDEntity n) => class_default f n
                          | Some d => gdefault_value names d
                          | None => match gf_ann g, gf_kafka g with
-                                   | GPrim _ false, Some kt => Some (implicit_of kt)
+                                   | GPrim _ false, Some kt => implicit_opt kt
                                    | GEnt n false, _ => class_default f n
                                    | _, _ => None
                                    end
@@ -104,7 +109,7 @@ Section Plan.
             | Some (GDEntity n) => class_default (S (List.length module)) n
             | Some d => gdefault_value names d
             | None => match gf_ann g, gf_kafka g with
-                      | GPrim _ false, Some kt => Some (implicit_of kt)
+                      | GPrim _ false, Some kt => implicit_opt kt
                       | GEnt n false, _ => class_default (S (List.length module)) n
                       | _, _ => None
                       end
